@@ -1,7 +1,9 @@
 //@@ unit props=C15,C06
-// Unit shared: xlsx shared-formula reference rewriting (src/xlsx/mod.rs), verbatim text.
+// Unit shared: xlsx shared-formula reference rewriting (src/xlsx/mod.rs: offset_cell_name, replace_cell_names, coordinate_to_name), verbatim text.
+#![feature(allocator_api)]
 #![allow(unused_imports, dead_code, unused_variables, unused_mut, unused_assignments)]
 use vstd::prelude::*;
+use vstd::std_specs::iter::IteratorSpec;
 
 verus! {
 
@@ -15,40 +17,388 @@ pub mod vba { pub struct VbaError; }
 #[verifier::external_type_specification] #[verifier::external_body] pub struct ExIoError(std::io::Error);
 #[verifier::external_type_specification] #[verifier::external_body] pub struct ExParseFloatError(std::num::ParseFloatError);
 #[verifier::external_type_specification] #[verifier::external_body] pub struct ExParseIntError(std::num::ParseIntError);
+#[verifier::external_type_specification] #[verifier::external_body] pub struct ExFromUtf8Error(std::string::FromUtf8Error);
 
 //@@ item src/xlsx/mod.rs enum XlsxError
 //@@ item src/xlsx/mod.rs const MAX_COLUMNS
 //@@ item src/xlsx/mod.rs const MAX_ROWS
 
+// ---------------------------------------------------------------- A1 notation (same definitions as unit a1, written from the A1 grammar)
+pub open spec fn is_digit(c: u8) -> bool { 0x30 <= c <= 0x39 }
+pub open spec fn is_upper(c: u8) -> bool { 0x41 <= c <= 0x5a }
+pub open spec fn is_lower(c: u8) -> bool { 0x61 <= c <= 0x7a }
+pub open spec fn is_letter(c: u8) -> bool { is_upper(c) || is_lower(c) }
+pub open spec fn letter_val(c: u8) -> nat {
+    if is_upper(c) { (c - 0x41 + 1) as nat } else { (c - 0x61 + 1) as nat }
+}
+pub open spec fn dec10(s: Seq<u8>) -> nat
+    decreases s.len()
+{
+    if s.len() == 0 { 0 } else { dec10(s.drop_last()) * 10 + (s.last() - 0x30) as nat }
+}
+pub open spec fn b26(s: Seq<u8>) -> nat
+    decreases s.len()
+{
+    if s.len() == 0 { 0 } else { b26(s.drop_last()) * 26 + letter_val(s.last()) }
+}
+pub open spec fn all_digits(s: Seq<u8>) -> bool { forall|i: int| 0 <= i < s.len() ==> is_digit(#[trigger] s[i]) }
+pub open spec fn all_letters(s: Seq<u8>) -> bool { forall|i: int| 0 <= i < s.len() ==> is_letter(#[trigger] s[i]) }
+pub open spec fn all_upper(s: Seq<u8>) -> bool { forall|i: int| 0 <= i < s.len() ==> is_upper(#[trigger] s[i]) }
+pub open spec fn a1_shape(s: Seq<u8>, nl: int) -> bool {
+    0 <= nl <= s.len() && all_letters(s.subrange(0, nl)) && all_digits(s.subrange(nl, s.len() as int))
+}
+pub open spec fn a1_small(s: Seq<u8>, nl: int) -> bool { a1_shape(s, nl) && s.len() - nl <= 9 && nl <= 6 }
+pub open spec fn a1_value(s: Seq<u8>, nl: int) -> (u32, Option<u32>) {
+    ((dec10(s.subrange(nl, s.len() as int)) - 1) as u32,
+     if nl > 0 { Some((b26(s.subrange(0, nl)) - 1) as u32) } else { None })
+}
+/// `s` is THE A1 name of the 0-based cell (row, col): nl upper-case letters spelling col+1 in bijective base 26, then the decimal digits of row+1 (no leading zero)
+pub open spec fn name_of(s: Seq<u8>, nl: int, row: int, col: int) -> bool {
+    1 <= nl <= 3 && nl < s.len()
+    && all_upper(s.subrange(0, nl)) && b26(s.subrange(0, nl)) == col + 1
+    && all_digits(s.subrange(nl, s.len() as int)) && dec10(s.subrange(nl, s.len() as int)) == row + 1
+    && s[nl] != 0x30
+}
+pub open spec fn is_name_of(s: Seq<u8>, row: int, col: int) -> bool { exists|nl: int| name_of(s, nl, row, col) }
+
+
+pub open spec fn pow10(k: nat) -> nat decreases k { if k == 0 { 1 } else { 10 * pow10((k - 1) as nat) } }
+pub open spec fn pow26(k: nat) -> nat decreases k { if k == 0 { 1 } else { 26 * pow26((k - 1) as nat) } }
+proof fn lemma_dec10_bound(t: Seq<u8>)
+    requires all_digits(t),
+    ensures dec10(t) < pow10(t.len()),
+    decreases t.len(),
+{
+    if t.len() > 0 {
+        assert forall|i: int| 0 <= i < t.drop_last().len() implies is_digit(#[trigger] t.drop_last()[i]) by { assert(t.drop_last()[i] == t[i]); }
+        lemma_dec10_bound(t.drop_last());
+        assert(is_digit(t[t.len() - 1]));
+    }
+}
+proof fn lemma_b26_bound(t: Seq<u8>)
+    requires all_letters(t),
+    ensures b26(t) * 25 <= 26 * (pow26(t.len()) - 1), t.len() > 0 ==> b26(t) >= 1,
+    decreases t.len(),
+{
+    if t.len() > 0 {
+        assert forall|i: int| 0 <= i < t.drop_last().len() implies is_letter(#[trigger] t.drop_last()[i]) by { assert(t.drop_last()[i] == t[i]); }
+        lemma_b26_bound(t.drop_last());
+        assert(is_letter(t[t.len() - 1]));
+        assert(1 <= letter_val(t.last()) <= 26);
+        assert(pow26(t.len()) == 26 * pow26(t.drop_last().len()));
+    }
+}
+proof fn lemma_pow_vals()
+    ensures pow10(9) == 1000000000, pow26(6) == 308915776,
+{
+    reveal_with_fuel(pow10, 11);
+    reveal_with_fuel(pow26, 8);
+}
+proof fn lemma_pow_mono(a: nat, b: nat)
+    requires a <= b,
+    ensures pow10(a) <= pow10(b), pow26(a) <= pow26(b), pow10(a) >= 1, pow26(a) >= 1,
+    decreases b,
+{
+    if a < b { lemma_pow_mono(a, (b - 1) as nat); }
+    else if a > 0 { lemma_pow_mono((a - 1) as nat, (b - 1) as nat); }
+}
+/// a small A1 name denotes coordinates far below 2^32
+proof fn lemma_a1_small_range(s: Seq<u8>, nl: int)
+    requires a1_small(s, nl),
+    ensures dec10(s.subrange(nl, s.len() as int)) < 1000000000, b26(s.subrange(0, nl)) <= 321272406,
+{
+    lemma_dec10_bound(s.subrange(nl, s.len() as int));
+    lemma_b26_bound(s.subrange(0, nl));
+    lemma_pow_vals();
+    lemma_pow_mono((s.len() - nl) as nat, 9);
+    lemma_pow_mono(nl as nat, 6);
+}
+
+// ---------------------------------------------------------------- callees whose contracts are PROVED in unit a1 (identical contract text)
 //@@ fn src/xlsx/mod.rs get_row_and_optional_column ret=r external_body
 //@@ sig
-    ensures true,
+    // TRUSTED: the three clauses below are proved on the real text in unit a1 (a1/get_row_and_optional_column); unit a1 also registers the
+    // C06 finding that the function panics (debug) on > 9 digits / > 6 letters -- that panic is reachable from replace_cell_names too.
+    ensures
+        forall|nl: int| #[trigger] a1_small(range@, nl) && dec10(range@.subrange(nl, range@.len() as int)) >= 1 ==>
+            r == Ok::<(u32, Option<u32>), XlsxError>(a1_value(range@, nl)),
+        forall|nl: int| #[trigger] a1_small(range@, nl) && dec10(range@.subrange(nl, range@.len() as int)) == 0 ==> r is Err,
+        (forall|nl: int| !#[trigger] a1_shape(range@, nl)) ==> r is Err,
+//@@ end
+
+// (3 lines; re-verified here because the proof below needs the zero-row clause that unit a1 does not state for this wrapper)
+//@@ fn src/xlsx/mod.rs get_row_column props=C15 ret=r
+//@@ sig
+    ensures
+        //# C15.a1_cell_decode
+        forall|nl: int| #[trigger] a1_small(range@, nl) && nl >= 1 && dec10(range@.subrange(nl, range@.len() as int)) >= 1 ==>
+            r == Ok::<(u32, u32), XlsxError>((a1_value(range@, nl).0, (b26(range@.subrange(0, nl)) - 1) as u32)),
+        //# C15.a1_cell_needs_column
+        forall|nl: int| #[trigger] a1_small(range@, nl) && nl == 0 ==> r is Err,
+        //# C15.a1_cell_needs_row
+        forall|nl: int| #[trigger] a1_small(range@, nl) && dec10(range@.subrange(nl, range@.len() as int)) == 0 ==> r is Err,
+        //# C15.a1_cell_malformed_rejected
+        (forall|nl: int| !#[trigger] a1_shape(range@, nl)) ==> r is Err,
 //@@ end
 
 //@@ fn src/xlsx/mod.rs column_number_to_name ret=r external_body
 //@@ sig
-    ensures true,
+    // TRUSTED: proved on the real text in unit a1 (a1/column_number_to_name)
+    ensures
+        num >= 16384 ==> r is Err,
+        num < 16384 ==> r is Ok && all_upper(r->Ok_0@) && b26(r->Ok_0@) == num + 1 && 1 <= r->Ok_0@.len() <= 3,
 //@@ end
 
-//@@ fn src/xlsx/mod.rs get_row_column ret=r external_body
+// ---------------------------------------------------------------- coordinate_to_name: to_string/into_bytes/concat are outside vstd
+//@@ fn src/xlsx/mod.rs coordinate_to_name props=C15 ret=r external_body by=coordinate_to_name_rows,coordinate_to_name_cols
 //@@ sig
-    ensures true,
+    // TRUSTED: discharged only up to the bounds of the Kani harnesses kani/xlsxf (row < 100 x col = 27; every col < 16384 x row = 7).
+    // The precondition is the no-overflow condition of `cell.0 + 1`; kani/xlsxf/coordinate_to_name_total exhibits the panic without it.
+    requires
+        cell.0 < u32::MAX,
+    ensures
+        //# C15.name_err_iff_col_out_of_range
+        cell.1 >= 16384 <==> r is Err,
+        //# C15.name_is_letters_then_decimal
+        cell.1 < 16384 ==> r is Ok && is_name_of(r->Ok_0@, cell.0 as int, cell.1 as int),
 //@@ end
+proof fn witness_coordinate_to_name() { let c: (u32, u32) = (0u32, 0u32); assert(c.0 < u32::MAX); }
 
-//@@ fn src/xlsx/mod.rs coordinate_to_name ret=r external_body
-//@@ sig
-    ensures true,
-//@@ end
+// ---------------------------------------------------------------- std behaviour outside vstd
+pub open spec fn is_ascii_c(c: char) -> bool { (c as u32) < 0x80 }
+pub open spec fn all_ascii(s: Seq<char>) -> bool { forall|i: int| 0 <= i < s.len() ==> is_ascii_c(#[trigger] s[i]) }
+/// what `c as u8` makes of every char (exact for ASCII; Rust truncates the others to their low byte)
+pub open spec fn lowb(s: Seq<char>) -> Seq<u8> { Seq::new(s.len(), |i: int| s[i] as u8) }
 
-//@@ fn src/xlsx/mod.rs offset_cell_name props=C15 ret=r
-//@@ sig
-    ensures true,
-//@@ end
+// TRUSTED: documented behaviour of char::is_ascii_alphabetic ("U+0041 'A' ..= U+005A 'Z', or U+0061 'a' ..= U+007A 'z'")
+pub assume_specification[ char::is_ascii_alphabetic ](c: &char) -> (r: bool)
+    ensures r == (('A' <= *c && *c <= 'Z') || ('a' <= *c && *c <= 'z'));
+// TRUSTED: documented behaviour of char::is_ascii_digit ("U+0030 '0' ..= U+0039 '9'")
+pub assume_specification[ char::is_ascii_digit ](c: &char) -> (r: bool)
+    ensures r == ('0' <= *c && *c <= '9');
+// TRUSTED: <Vec<T> as AsRef<[T]>>::as_ref is the slice of the same elements
+pub assume_specification<T, A: std::alloc::Allocator>[ <Vec<T, A> as AsRef<[T]>>::as_ref ](v: &Vec<T, A>) -> (r: &[T])
+    ensures r@ == v@;
+/// the items an IntoIterator value yields, in order
+pub uninterp spec fn iter_items<T, I>(it: I) -> Seq<T>;
+// TRUSTED: documented behaviour of Vec::extend (appends every item of the iterator, in order)
+pub assume_specification<T, A: std::alloc::Allocator, I: IntoIterator<Item = T>>[ <Vec<T, A> as Extend<T>>::extend ](v: &mut Vec<T, A>, it: I)
+    ensures final(v)@ == old(v)@ + iter_items::<T, I>(it);
+// TRUSTED: a Vec<u8> iterated by value yields its elements in order
+#[verifier::external_body]
+pub broadcast proof fn axiom_iter_items_vec_u8(v: Vec<u8>)
+    ensures #[trigger] iter_items::<u8, Vec<u8>>(v) == v@,
+{}
+// TRUSTED: stands for the expression `xs.iter().map(|c| *c as u8)` collected (see the `replace` directives below): vstd's spec of
+// Map gives no relation to the closure at construction time, so the four occurrences are rewritten into a call of this function.
+#[verifier::external_body]
+fn verif_low_bytes(xs: &[char]) -> (r: Vec<u8>)
+    ensures r@ == lowb(xs@),
+{
+    xs.iter().map(|c| *c as u8).collect()
+}
+/// UTF-8 encoding
+pub uninterp spec fn utf8(s: Seq<char>) -> Seq<u8>;
+// TRUSTED: UTF-8 encodes every ASCII char as the byte of the same value
+#[verifier::external_body]
+pub proof fn axiom_utf8_ascii(s: Seq<char>)
+    requires all_ascii(s),
+    ensures utf8(s) == lowb(s),
+{}
+// TRUSTED: UTF-8 is injective
+#[verifier::external_body]
+pub proof fn axiom_utf8_injective(s: Seq<char>, t: Seq<char>)
+    requires utf8(s) == utf8(t),
+    ensures s == t,
+{}
+// TRUSTED: documented behaviour of String::from_utf8: Ok(the string whose UTF-8 encoding is the vector) iff the vector is valid UTF-8
+pub assume_specification[ String::from_utf8 ](v: Vec<u8>) -> (r: Result<String, std::string::FromUtf8Error>)
+    ensures
+        r is Ok ==> utf8(r->Ok_0@) == v@,
+        r is Err ==> forall|s: Seq<char>| utf8(s) != v@;
 
-//@@ fn src/xlsx/mod.rs replace_cell_names props=C15 entry ret=r
+pub open spec fn bytes_ascii(v: Seq<u8>) -> bool { forall|i: int| 0 <= i < v.len() ==> #[trigger] v[i] < 0x80 }
+pub open spec fn as_chars(v: Seq<u8>) -> Seq<char> { Seq::new(v.len(), |i: int| v[i] as char) }
+
+proof fn lemma_ascii_roundtrip(v: Seq<u8>)
+    requires bytes_ascii(v),
+    ensures all_ascii(as_chars(v)), lowb(as_chars(v)) == v, utf8(as_chars(v)) == v,
+{
+    let s = as_chars(v);
+    assert forall|i: int| 0 <= i < s.len() implies is_ascii_c(#[trigger] s[i]) by { assert(v[i] < 0x80); }
+    assert(lowb(s) =~= v) by {
+        assert forall|i: int| 0 <= i < v.len() implies lowb(s)[i] == v[i] by { assert(v[i] < 0x80); assert(s[i] == v[i] as char); }
+    }
+    axiom_utf8_ascii(s);
+}
+
+pub broadcast proof fn lemma_bytes_ascii_add(a: Seq<u8>, b: Seq<u8>)
+    requires bytes_ascii(a), bytes_ascii(b),
+    ensures #[trigger] bytes_ascii(a + b),
+{}
+pub broadcast proof fn lemma_bytes_ascii_push(a: Seq<u8>, x: u8)
+    requires bytes_ascii(a), x < 0x80,
+    ensures #[trigger] bytes_ascii(a.push(x)),
+{}
+pub broadcast proof fn lemma_lowb_ascii(cs: Seq<char>)
+    requires all_ascii(cs),
+    ensures #[trigger] bytes_ascii(lowb(cs)),
+{
+    assert forall|i: int| 0 <= i < lowb(cs).len() implies #[trigger] lowb(cs)[i] < 0x80 by { assert(is_ascii_c(cs[i])); }
+}
+pub broadcast proof fn lemma_all_ascii_push(cs: Seq<char>, c: char)
+    requires all_ascii(cs), is_ascii_c(c),
+    ensures #[trigger] all_ascii(cs.push(c)),
+{}
+// ---------------------------------------------------------------- offset_cell_name
+proof fn lemma_name_ascii(v: Seq<u8>, row: int, col: int)
+    requires is_name_of(v, row, col),
+    ensures bytes_ascii(v),
+{
+    let nl = choose|nl: int| name_of(v, nl, row, col);
+    assert forall|i: int| 0 <= i < v.len() implies #[trigger] v[i] < 0x80 by {
+        if i < nl { assert(is_upper(v.subrange(0, nl)[i])); } else { assert(is_digit(v.subrange(nl, v.len() as int)[i - nl])); }
+    }
+}
+/// `name` (chars) is a plain A1 reference: ASCII, nl letters then digits, row >= 1
+pub open spec fn plain_ref(name: Seq<char>, nl: int) -> bool {
+    all_ascii(name) && a1_small(lowb(name), nl) && nl >= 1 && dec10(lowb(name).subrange(nl, name.len() as int)) >= 1
+}
+pub open spec fn ref_row(name: Seq<char>, nl: int) -> int { dec10(lowb(name).subrange(nl, name.len() as int)) - 1 }
+pub open spec fn ref_col(name: Seq<char>, nl: int) -> int { b26(lowb(name).subrange(0, nl)) - 1 }
+/// offsets that next_formula can produce: differences of u32 coordinates computed in i64
+pub open spec fn offset_small(offset: (i64, i64)) -> bool {
+    -0x1_0000_0000 < offset.0 < 0x2_0000_0000 && -0x1_0000_0000 < offset.1 < 0x2_0000_0000
+}
+
+//@@ fn src/xlsx/mod.rs offset_cell_name props=C15,C06 ret=r
 //@@ sig
-    ensures true,
+    requires
+        offset_small(offset),
+    ensures
+        //# C15.relative_shift
+        forall|nl: int| #[trigger] plain_ref(name@, nl)
+            && 0 <= ref_row(name@, nl) + offset.0 < 0xFFFF_FFFF && 0 <= ref_col(name@, nl) + offset.1 < 16384 ==>
+            r is Ok && is_name_of(r->Ok_0@, ref_row(name@, nl) + offset.0, ref_col(name@, nl) + offset.1),
+        //# C15.shift_out_of_columns_rejected
+        // (a negative column sum is not stated: Verus leaves the out-of-range `as u32` cast unspecified)
+        forall|nl: int| #[trigger] plain_ref(name@, nl)
+            && 0 <= ref_row(name@, nl) + offset.0 < 0xFFFF_FFFF && 16384 <= ref_col(name@, nl) + offset.1 < 0x1_0000_0000 ==> r is Err,
+        //# C15.non_reference_rejected
+        forall|nl: int| all_ascii(name@) && #[trigger] a1_small(lowb(name@), nl)
+            && (nl == 0 || dec10(lowb(name@).subrange(nl, name@.len() as int)) == 0) ==> r is Err,
+        //# C15.malformed_rejected
+        (forall|nl: int| !#[trigger] a1_shape(lowb(name@), nl)) ==> r is Err,
+        //# C15.name_is_ascii
+        r is Ok ==> bytes_ascii(r->Ok_0@),
+//@@ replace /name\.iter\(\)\.map\(\|c\| \*c as u8\)\.collect::<Vec<_>>\(\)/ vstd's Map gives no relation to the closure; the expression is replaced by a call of verif_low_bytes, whose TRUSTED contract states what `.iter().map(|c| *c as u8).collect()` yields
+verif_low_bytes(name)
+//@@ before /coordinate_to_name\(/
+    proof {
+        assert forall|nl: int| #[trigger] plain_ref(name@, nl) implies cell.0 == ref_row(name@, nl) && cell.1 == ref_col(name@, nl) by {
+            lemma_a1_small_range(lowb(name@), nl);
+        }
+        assert forall|v: Seq<u8>, row: int, col: int| #[trigger] is_name_of(v, row, col) implies bytes_ascii(v) by { lemma_name_ascii(v, row, col); }
+    }
 //@@ end
+proof fn witness_offset_cell_name() { assert(offset_small((1i64, -1i64))); }
+
+// ---------------------------------------------------------------- replace_cell_names
+// Oracle for formulas that consist of ONE cell reference, written from the property: the formula is
+//   ['$'] LETTERS ['$'] DIGITS        (p = 1 iff the column is absolute, m = 1 iff the row is absolute)
+// and its translation by (dr, dc) is the same shape where an absolute component keeps its characters and a relative component is
+// re-spelled for the moved coordinate (column letters = bijective base-26 of col+1, row = decimal of row+1 without leading zero).
+pub open spec fn single_ref(sb: Seq<u8>, p: int, nl: int, m: int, nd: int) -> bool {
+    0 <= p <= 1 && 1 <= nl <= 3 && 0 <= m <= 1 && 1 <= nd <= 7 && sb.len() == p + nl + m + nd
+    && (p == 1 ==> sb[0] == 0x24)
+    && all_upper(sb.subrange(p, p + nl))
+    && (m == 1 ==> sb[p + nl] == 0x24)
+    && all_digits(sb.subrange(p + nl + m, sb.len() as int))
+    && dec10(sb.subrange(p + nl + m, sb.len() as int)) >= 1
+}
+pub open spec fn single_row(sb: Seq<u8>, p: int, nl: int, m: int) -> int { dec10(sb.subrange(p + nl + m, sb.len() as int)) - 1 }
+pub open spec fn single_col(sb: Seq<u8>, p: int, nl: int) -> int { b26(sb.subrange(p, p + nl)) - 1 }
+/// `ob` is the translation of the single-reference formula `sb` by (dr, dc); nlo = number of letters of the translated name
+pub open spec fn single_translated(ob: Seq<u8>, nlo: int, sb: Seq<u8>, p: int, nl: int, m: int, dr: int, dc: int) -> bool {
+    let lo = ob.subrange(p, p + nlo);
+    let dg = ob.subrange(p + nlo + m, ob.len() as int);
+    1 <= nlo <= 3 && p + nlo + m < ob.len()
+    && (p == 1 ==> ob[0] == 0x24)
+    && (m == 1 ==> ob[p + nlo] == 0x24)
+    && (if p == 1 { lo == sb.subrange(p, p + nl) } else { all_upper(lo) && b26(lo) == single_col(sb, p, nl) + dc + 1 })
+    && (if m == 1 { dg == sb.subrange(p + nl + m, sb.len() as int) }
+        else { all_digits(dg) && dg[0] != 0x30 && dec10(dg) == single_row(sb, p, nl, m) + dr + 1 })
+}
+/// the moved components stay inside the sheet
+pub open spec fn single_in_sheet(sb: Seq<u8>, p: int, nl: int, m: int, dr: int, dc: int) -> bool {
+    (m == 1 || 0 <= single_row(sb, p, nl, m) + dr < 1048576) && (p == 1 || 0 <= single_col(sb, p, nl) + dc < 16384)
+}
+
+/// state of the scanner after k chars of a single-reference formula (see the loop invariant)
+pub open spec fn single_state(sb: Seq<u8>, p: int, nl: int, m: int, k: int, res: Seq<u8>, cell: Seq<u8>, is_cell_row: bool) -> bool {
+    if k <= p { res == sb.subrange(0, k) && cell.len() == 0 && !is_cell_row }
+    else if k <= p + nl { res == sb.subrange(0, p) && cell == sb.subrange(p, k) && !is_cell_row }
+    else if m == 1 { res == sb.subrange(0, p + nl + 1) && cell == sb.subrange(p + nl + 1, k) && is_cell_row == (k > p + nl + 1) }
+    else { res == sb.subrange(0, p) && cell == sb.subrange(p, k) && is_cell_row }
+}
+
+//@@ fn src/xlsx/mod.rs replace_cell_names props=C15,C06 ret=r
+//@@ sig
+    requires
+        offset_small(offset),
+    ensures
+        //# C15.non_reference_text_never_fails
+        r is Ok,
+        //# C15.ascii_formula_never_fails
+        all_ascii(s@) ==> r is Ok && all_ascii(r->Ok_0@),
+        //# C15.single_reference_translated
+        forall|p: int, nl: int, m: int, nd: int| all_ascii(s@) && #[trigger] single_ref(lowb(s@), p, nl, m, nd)
+            && single_in_sheet(lowb(s@), p, nl, m, offset.0 as int, offset.1 as int) ==>
+            r is Ok && all_ascii(r->Ok_0@)
+            && exists|nlo: int| single_translated(lowb(r->Ok_0@), nlo, lowb(s@), p, nl, m, offset.0 as int, offset.1 as int),
+        //# C15.single_reference_translated_uniform
+        forall|p: int, nl: int, m: int, nd: int| all_ascii(s@) && #[trigger] single_ref(lowb(s@), p, nl, m, nd) && p == m
+            && single_in_sheet(lowb(s@), p, nl, m, offset.0 as int, offset.1 as int) ==>
+            r is Ok && all_ascii(r->Ok_0@)
+            && exists|nlo: int| single_translated(lowb(r->Ok_0@), nlo, lowb(s@), p, nl, m, offset.0 as int, offset.1 as int),
+//@@ body
+    broadcast use {axiom_iter_items_vec_u8, lemma_bytes_ascii_add, lemma_bytes_ascii_push, lemma_lowb_ascii, lemma_all_ascii_push};
+    let ghost sb = lowb(s@);
+    let ghost mut k: int = 0;
+//@@ r6 0
+//@@ loop 0
+        invariant
+            0 <= k <= s@.len(),
+            __it0.obeys_prophetic_iter_laws(),
+            __it0.remaining() == s@.skip(k),
+            offset_small(offset),
+            all_ascii(s@) ==> bytes_ascii(res@) && all_ascii(cell@),
+            sb == lowb(s@),
+            all_ascii(s@) ==> forall|p: int, nl: int, m: int, nd: int| #[trigger] single_ref(sb, p, nl, m, nd) ==>
+                !in_quote && single_state(sb, p, nl, m, k, res@, lowb(cell@), is_cell_row),
+        decreases s@.len() - k,
+//@@ before /if c == '"'/
+        broadcast use {axiom_iter_items_vec_u8, lemma_bytes_ascii_add, lemma_bytes_ascii_push, lemma_lowb_ascii, lemma_all_ascii_push};
+        let ghost res0 = res@;
+        let ghost cell0 = cell@;
+        let ghost icr0 = is_cell_row;
+        let ghost inq0 = in_quote;
+        proof { k = k + 1; assert(c == s@.skip(k - 1)[0]); assert(c == s@[k - 1]); if all_ascii(s@) { assert(is_ascii_c(s@[k - 1])); } }
+//@@ before /match String::from_utf8/
+    proof {
+        if bytes_ascii(res@) {
+            lemma_ascii_roundtrip(res@);
+            assert forall|t: Seq<char>| utf8(t) == res@ implies t == as_chars(res@) by { axiom_utf8_injective(t, as_chars(res@)); }
+        }
+    }
+//@@ replace /cell\.iter\(\)\.map\(\|c\| \*c as u8\)/#0of3 vstd's Map gives no relation to the closure; replaced by verif_low_bytes (TRUSTED contract: what `.iter().map(|c| *c as u8)` yields)
+verif_low_bytes(cell.as_slice())
+//@@ replace /cell\.iter\(\)\.map\(\|c\| \*c as u8\)/#1of3 same rewrite
+verif_low_bytes(cell.as_slice())
+//@@ replace /cell\.iter\(\)\.map\(\|c\| \*c as u8\)/#2of3 same rewrite
+verif_low_bytes(cell.as_slice())
+//@@ end
+proof fn witness_replace_cell_names() { assert(offset_small((0i64, 3i64))); }
 
 } // verus!
 fn main() {}
